@@ -19,7 +19,7 @@ class PreludeMixin:
                 'getattr', 'pow', 'iter', 'next', 'type', 'repr', 'print', 'frozenset', 'hasattr'}
     SPEC_BUILTINS = {'vec_le', 'vec_ge', 'vec_lt', 'vec_eq', 'vec_zero', 'dom', 'is_none', 'to_real', 'length',
                      'keys_subset', 'str_to_int', 'alive', 'in_prefix', 'name_of', 'str_of', 'clock_now', 'eps', 'rdiv', 'is_int', 'ext', 'fs_kind', 'fs_target', 'path', 'fs_content', 'fs_ctime', 'yaml_of', 'zk_path', 'str_fn', 'any_tok', 'any_get', 'split_part', 'split_count', 'str_to_real', 'str_is_real', 'zk_exists', 'zk_owner', 'zk_content', 'dict_update_opt', 'dict_put', 'dict_del', 'set_put', 'set_del', 'counter_inc', 'is_digits', 'select', 'strlen', 'cls_is', 'distinct_list'}
-    LIB_CONSTS = {'errno.ENOENT': 2, 'errno.EEXIST': 17, 'errno.EINVAL': 22, 'sys.maxsize': 9223372036854775807, 'np.inf': INF, 'numpy.inf': INF, 'math.inf': INF}
+    LIB_CONSTS = {'errno.ENOENT': 2, 'errno.EEXIST': 17, 'errno.EINVAL': 22, 'sys.maxsize': 9223372036854775807, 'sys.version_info': TupleVal([3, 12, 1]), 'os.name': 'posix', 'np.inf': INF, 'numpy.inf': INF, 'math.inf': INF}
     LIB_MODULES_ALIAS = {}
     LIB_MODULES = {'six.moves', 'os.path', 'six.moves.urllib', 'np.random'}
 
